@@ -22,7 +22,8 @@ RULE = ('templates = trees of ConstantPT holds (1-3 channels, every channel orde
         'in the enclosing ForLoopPT indices with dyadic coefficients drawn from a small pool so that dependency keys '
         'collide), SequencePT, RepetitionPT (count 0,1,2,3), ForLoopPT (start/stop/step incl. negative step, length '
         '0..4, non-aligned stop), holds rendered directly or through MappingPT (affine re-parametrisation), loop-index '
-        'rebinding mappings, zero durations, zero coefficients through parameters; real pipeline '
+        'rebinding mappings (scopes resolved by the model), registers shared across depths, zero durations, zero coefficients '
+        'through parameters; exhaustive small nests (thorough: depth 3, 2-3 channels in every order); real pipeline '
         'create_program(program_builder=LinSpaceBuilder) -> to_increment_commands -> LinSpaceVM.run, observation = '
         'history + total time; independent oracle = unrolled default Loop program.  scale cases: the same through '
         'ProgramEntry(program_type=Linspace) with power-of-two amplitudes, dyadic offsets and unused (None) outputs.  '
@@ -789,8 +790,6 @@ def classify(case, obs):
         return None
     if case['kind'] == 'scale' and any(h[0] is None for h in case['hw'][:-1]):
         return 'unused-outputs-collapse'
-    if _has(tree, lambda x: x['t'] == 'remap' and _has(x['body'], lambda y: y['t'] == 'rep' and y['n'] > 0)):
-        return 'index-rebinding-under-repetition'
     return None
 
 
@@ -918,25 +917,28 @@ def _shrink_candidates(case):
 
 
 MANIFEST = {
-    'level_text': 'Partial proof + exact correspondence. Proved in Coq (unbounded, closed under the global context): (1) the '
-                  'hardware-scaling clause for ALL command lists (running the commands transformed by '
-                  '_transform_linspace_commands gives step for step the history with channel k mapped to (v-offset_k)/amplitude_k, '
-                  'same times, same errors); (2) the increment kernel DepState.required_increment_from for any nesting depth '
-                  '(the induction step of the invariant "register holds base + sum factors*indices"); (3) refutations: the '
-                  'faithful model of the translator violates the unguarded staircase statement on the known-finding classes. '
-                  'The staircase clause itself (VM history of translate(build p) = unrolled default program, same total '
-                  'duration) is stated (C17_staircase_statement, with executable guards) but NOT proved; it is decided per '
-                  'input by the correspondence check: the real pipeline create_program(LinSpaceBuilder) -> '
-                  'to_increment_commands -> LinSpaceVM is run on generated templates and compared exactly, inside Coq, with '
-                  'the executable model (builder, translator incl. first-pass unrolling, VM) and with the independently '
-                  'unrolled default Loop program.',
+    'level_text': 'Full proof + exact correspondence. Proved in Coq (unbounded, closed under the global context): '
+                  '(1) C17_staircase: for every source built from constant holds (plain / int / affine voltages, any number of '
+                  'channels), sequences, iterations with any start/stop/step and repetitions of any count, nested to any depth: '
+                  'whenever the modelled pipeline LinSpaceBuilder -> to_increment_commands -> LinSpaceVM returns a history it is '
+                  'exactly the staircase of the source (same start times, same voltages as rationals, no NaN) with the same total '
+                  'duration, for any fuel; hypotheses: one voltage per channel, steps <> 0, and no dependency-key collision by '
+                  'rounding (two different slopes of one channel within 1e-9).  Proof by a simulation invariant between translator '
+                  'state and VM ("register (channel,key) holds base + sum factors*indices"), a flat-VM loop lemma, and '
+                  'builder = unrolled source.  (2) the same for templates with loop-index rebinding mappings (scopes modelled).  (3) hardware scaling for ALL command lists.  (4) the increment kernel, and the '
+                  'definition translated from the current source text of DepState.required_increment_from equals the model '
+                  '(fail-closed translator, regenerated on every run).  (5) refutations: the round-1 statement is false without the '
+                  'key-collision guard.  The model is tied to /repo on every run by the exact '
+                  'correspondence check (real pipeline vs model vs independently unrolled default Loop program).',
     'level_note': 'Trusted: Coq kernel/vm_compute; harness rendering of source terms to templates (cross-checked against the '
                   'default program on every case); qupulse Loop builder as reference; float arithmetic is exact on the generated '
-                  'dyadic values (decimal values are a separate stream compared within resolution x steps). Two defects repaired '
-                  'in /repo (count-1 repetition played twice, int voltages raised), five recorded as known findings (repetition '
-                  'loops replaying entry-state dependent commands, dependency key shared across depths -> AssertionError, '
-                  'zero-factor register aliasing plain voltages, loop-index rebinding undone under a repetition, unused outputs '
-                  'collapsing in _channel_transformations).',
-    'technique': 'Coq proof over a hand-written executable model + exact correspondence check against the real pipeline',
+                  'dyadic values (decimal values are a separate stream compared within resolution x steps).  The theorem is about '
+                  'the hand-written model of builder/translator/VM (line-by-line, kernel additionally translated from source).  '
+                  'Repaired in /repo: count-1 repetition played twice, int voltages (round 1); repetition loops replaying '
+                  'entry-state dependent commands, zero-factor register aliasing plain voltages, AssertionError for a register '
+                  'shared across nesting depths, loop-index rebinding undone under a repetition (round 2).  Known finding left: '
+                  'unused outputs collapsing in _channel_transformations (hardware/awgs/base.py).',
+    'technique': 'Coq proof over a hand-written executable model (kernel translated from source) + exact correspondence check '
+                 'against the real pipeline',
     'design_ref': 'DESIGN.md §5 C17',
 }
